@@ -76,7 +76,6 @@ type verifC12Cfg struct {
 	// beyond the current end (see FINDINGS.md); the passing harnesses leave
 	// exactly that case out.
 	zeroLenGapWrites bool
-	onlyZeroLenGap   bool
 }
 
 // verifC12Step applies one symbolic operation to both objects and compares
@@ -132,9 +131,6 @@ func verifC12Step(sut, ref verifBuf, cfg verifC12Cfg, maxLen, maxOff int) {
 	case 3: // Size only (checked below for every operation)
 	case 4: // Write
 		n := verif.Len("wlen", 0, maxLen)
-		if cfg.onlyZeroLenGap {
-			verif.Assume(n == 0)
-		}
 		if n == 0 && !cfg.zeroLenGapWrites {
 			verif.Assume(pos <= size)
 		}
@@ -148,9 +144,6 @@ func verifC12Step(sut, ref verifBuf, cfg verifC12Cfg, maxLen, maxOff int) {
 	case 5: // WriteAt
 		n := verif.Len("walen", 0, maxLen)
 		off := int64(verif.Len("waoff", -1, maxOff))
-		if cfg.onlyZeroLenGap {
-			verif.Assume(n == 0)
-		}
 		if n == 0 && !cfg.zeroLenGapWrites {
 			verif.Assume(off <= size)
 		}
@@ -198,7 +191,7 @@ func verifNewMemoryFile(c int) *File {
 func VerifMemoryFileVsOSFile() {
 	c := verif.Len("capacity", 0, verif.Bound("capacity", 2, 3))
 	verifC12Run(verifNewMemoryFile(c), verifRefFile(nil), verifC12Cfg{writable: true},
-		verif.Bound("ops", 2, 3), verif.Bound("len", 2, 2), verif.Bound("off", 3, 3))
+		verif.Bound("ops", 3, 4), verif.Bound("len", 2, 2), verif.Bound("off", 3, 3))
 }
 
 // VerifBufferReadWriterVsOSFile: base.BufferReadWriter (aws.WriteAtBuffer)
@@ -206,7 +199,7 @@ func VerifMemoryFileVsOSFile() {
 func VerifBufferReadWriterVsOSFile() {
 	c := verif.Len("capacity", 0, verif.Bound("capacity", 2, 3))
 	verifC12Run(base.NewBufferReadWriter(uint64(c)), verifRefFile(nil), verifC12Cfg{writable: true},
-		verif.Bound("ops", 2, 3), verif.Bound("len", 2, 2), verif.Bound("off", 3, 3))
+		verif.Bound("ops", 3, 4), verif.Bound("len", 2, 2), verif.Bound("off", 3, 3))
 }
 
 // ---- one operation from an arbitrary reachable state (inductive step) ----
